@@ -1,36 +1,35 @@
 SPECIFICATION Spec
 CONSTANTS
-  Req = {r1, r2, r3}
-  Keys = {k1}
-  Disp = {d1}
-  Purgers = {}
+  Req = {"r1", "r2"}
+  Keys = {"k1"}
+  Disp = {"d1", "d2"}
+  Purgers = {"p1"}
   HasStore <- MC_HasStore
   Limit <- MC_Limit
   ShardOf <- MC_ShardOf
   HfpTTL <- MC_HfpTTL
   Methods = {"GET"}
   TTLs = {1}
-  Outcomes = {"cacheable", "uncacheable", "error"}
-  LoadResults = {}
-  SaveResults = {TRUE}
+  Outcomes = {"cacheable", "uncacheable"}
+  LoadResults = {"ok", "notfound"}
+  SaveResults = {TRUE, FALSE}
   Jumps = {1}
-  MaxTicks = 3
+  MaxTicks = 1
   MaxStarts = 4
   MaxVer = 4
-  MaxEnt = 1
-  MaxPurges = 0
+  MaxEnt = 4
+  MaxPurges = 2
   MaxKills = 0
   MaxDrops = 0
-  UnnamedPurge = FALSE
+  UnnamedPurge = TRUE
   ResumeRelooks = TRUE
   AgeAtDecision = TRUE
   LoadAtomic = TRUE
   PurgeFences = TRUE
   Ghost = TRUE
-SYMMETRY Sym
 INVARIANTS
   TypeOK
   I_SingleFlight I_BurstCostsOne I_HitServed I_LabelTruth I_OnlyStoredIsShared I_KeyMatch
   I_HitFresh I_AgeTruth I_RefetchAfterExpiry I_HfpPass I_HfpNeverCached I_HfpLapses
-  I_PurgeEffective I_NoOwnError
+  I_PurgeEffective I_BadRecordIsMiss I_NoOwnError
   D_FetchingHasOwner D_OneOwner D_WaitersOnlyWhileFetching D_WaiterAccounted D_NoImmortal D_HitHasResponse D_Resident
